@@ -48,9 +48,13 @@ THEOREMS = [
 SPLIT_INTEGRATORS = ("mjINT_EULER", "mjINT_IMPLICIT", "mjINT_IMPLICITFAST")
 
 
+SCRATCH = {"iscratch", "cstate"}   # arena arrays that some solver paths never write: their content is whatever the
+                                    # (uninitialised, not copied by mj_copyData) free arena held; determined by no stage
+
+
 def all_fields(sc):
-    """every comparable field: all groups but diagnostics / addresses"""
-    return sc.fields([g for g in sc.info.groups if g not in NEVER_COMPARE])
+    """every comparable field: all groups but diagnostics / addresses / never-determined solver scratch"""
+    return sc.fields([g for g in sc.info.groups if g not in NEVER_COMPARE and g not in SCRATCH])
 
 
 def edit_cmds(sc, rng, k, what=("ctrl", "qfrc_applied", "xfrc_applied")):
@@ -263,6 +267,29 @@ def run(ctx):
             h.close()
             h = Harness(exe)
     ctx.extra["tests"] = hist
+
+    def directed(c):
+        hh = Harness(exe)
+        try:
+            for mi in range(60):
+                split = mi % 2 == 0
+                mdl = make_model(c.rng, sleep=0.0, integrator=c.rng.choice(("Euler", "implicit", "implicitfast")) if split else None)
+                sc = Scene(hh, info, mdl, False)
+                if not sc.loaded:
+                    continue
+                sc.state_fields = sf
+                res = [test_split(sc, c.rng)] if split else test_skip(sc, c.rng) + test_skip(sc, c.rng, inverse=True)
+                res += test_forward_state_and_idempotence(sc, c.rng)
+                res = [r for r in res if r]
+                if res:
+                    f = res[0]
+                    return {"key": "c04:" + f["what"].split(" (")[0].replace(" ", "-"), "what": f["what"] + ": " + str(f.get("detail")), "replay": f}
+        except HarnessDied:
+            return None
+        finally:
+            hh.close()
+        return None
+    ctx.directed_search = directed
     for f in fails[:6]:
         ctx.oracle_failure("c04:" + f["what"].split(" (")[0].replace(" ", "-"), f["what"] + ": " + str(f.get("detail")), f)
     probes = {}
